@@ -55,3 +55,6 @@ PROP["coq"] = list(PROP["coq"]) + ["Check/LibCheck"]
 PROP["codes"]["LIB"] = {1: ("sdkmath-Int-operation-differs-from-SdkInt", "mismatch"),
                         2: ("sdkmath-LegacyDec-operation-differs-from-SdkDec", "mismatch"),
                         3: ("checked-and-unchecked-power-differ", "mismatch")}
+
+# translator agreement lemmas (tools/gokernel regenerates Gen/K*.v from /repo on every run)
+PROP["agree"] = ['Gen/AgreeInflation', 'Gen/AgreeEpochs']
